@@ -58,6 +58,11 @@ CHECKS = {
    text="About 1.1 million cases (2.6 million thorough) over 12 slices: near-integer helpers on k+f lattices incl. +-1 ulp around each tolerance; align helpers on [-40,5000] and 2^k+d up to k=32 x align 1..20; snap_grid on a dyadic lattice (exact ==) and the realistic C08 alphabet (rational oracle); snap_scale/snap_affine around their tolerances incl. idempotence and rotated inputs; decompose_rws on all invertible 2x2 matrices over 8 values plus rotation x shear x scale; affine_from_pts and Poly2d fits (3-point, 2xk, kxm grids incl. odd grids whose centre is the centroid) with all evaluation forms and input transforms; affine_from_axis; Bin1D on dyadic (edges exact) and realistic (strictly inside) points incl. from_sample_bin. Oracles use fractions.Fraction of the binary64 inputs.",
    note="At exact equality with a tolerance either decision is accepted; ties at +-0.5 may go either way; align_*_pow2 only for the stated range k<=32.",
    design="4/C20", thorough=True),
+ "C07": dict(level="exploration", engine="E1",
+   technique="bounded-exhaustive enumeration of edges/geometries/CRS pairs on the real densify/segmented/to_crs, vs a fresh pyproj transformer and exact edge arithmetic",
+   text="densify/segmented: every ordered vertex pair of {-2,-1,0,1,2,5}^2 (all 8 directions, zero length) x scale {1,1e3,1e6} x offsets on/near/far from the axes x 6 resolutions, and 10 geometry kinds x 8 symmetries: no piece longer than the resolution, original vertices retained in order, added vertices on the original edges, type/structure/area/length unchanged. to_crs: 8 directed CRS pairs x placements inside both areas of use x kinds x target spellings x resolution modes: every vertex equals a FRESH pyproj transformer's result, type/ring/part structure and vertex order preserved, there-and-back within 1e-6 relative, same CRS (36 spelling pairs) returns the input, no CRS => ValueError; transformer_to_crs with scalar/list/array/NaN inputs and both axis orders.",
+   note="Oracle transformers are built by the check from its own pyproj objects, never the library's cache. resolution <= 0 and empty geometries are outside the property's quantifier (observed, not judged).",
+   design="4/C07", thorough=True),
 }
 NOT_YET = "check not built yet in this session (design in DESIGN.md section 4); no claim made"
 
